@@ -324,9 +324,10 @@ func runC05(c c05Case) *Violation {
 var procsMu sync.Mutex
 
 func TestC05(t *testing.T) {
-	Ev.Rule = "case = schedule: 1-4 client goroutines with 1-6 operations each (IngestRows of good/empty/unmarshalable batches with buffered cap-4, live-drained unbuffered or nil done channels, optional ctx timeouts and contexts whose Done() is slow; Flush; at most one scripted Stop; Query; Merge; pauses), engine started first / late / twice / never, IngestBufferSize 1..1000, row/byte/time/partition flush triggers, stores with per-call latency and up to two one-shot failures, GOMAXPROCS varied. Invariant judged on the recorded history once Stop returned nil: every batch whose IngestRows returned nil has received exactly one value (checked right after Stop and after a quiescence window), every accepted Flush has returned, no batch is answered twice, unmarshalable batches get an error. Non-trivial: >=1 accepted non-empty batch and (IngestRows accepted while Stop was running, or accepted before Start, or a store failure fired, or a non-Flush trigger configured); distinct by case."
+	Ev.Rule = "case = schedule: 1-4 client goroutines with 1-6 operations each (IngestRows of good/empty/unmarshalable batches with buffered cap-4, live-drained unbuffered or nil done channels, optional ctx timeouts and contexts whose Done() is slow; Flush; at most one scripted Stop; Query; Merge; pauses), engine started first / late / twice / never, IngestBufferSize 1..1000, row/byte/time/partition flush triggers, stores with per-call latency and up to two one-shot failures, GOMAXPROCS varied. Invariant judged on the recorded history once Stop returned nil: every batch whose IngestRows returned nil has received exactly one value (checked right after Stop and after a quiescence window), every accepted Flush has returned, no batch is answered twice, unmarshalable batches get an error. stoprace phase: callers held between the stopped check and the enqueue by a Context whose Done() parks, released before/during/after Stop (same invariant). Non-trivial: >=1 accepted non-empty batch and (IngestRows accepted while Stop was running, or accepted before Start, or a store failure fired, or a non-Flush trigger configured); distinct by case."
 	Ev.Assumptions = []string{"a Stop that does not return nil imposes no C05 obligation (C08 judges Stop)", "interleavings that cross neither a client call nor a store call are left to the Go scheduler and repetition"}
 	runChecks(t, "schedules", 300, 10000, genC05(), runC05)
+	runChecks(t, "stoprace", 60, 1500, genStopRace(), runStopRace)
 }
 
 var _ = errors.Is
